@@ -18,7 +18,7 @@ def init(names):
     ty = {n: i for i, n in enumerate(names)}
     T_TOK, T_COLON, T_SEMI, T_REG, T_IGN, T_BAR, T_CHAR, T_PROD, T_STR = (ty[x] for x in
         ("tokId", ":", ";", "regDefId", "ignoredTokId", "|", "char_lit", "prodId", "string_lit"))
-    return ty, [ty[x] for x in (":", ";", "|", "tokId", "regDefId", "ignoredTokId", "prodId", "string_lit", "error", "empty")]
+    return ty, [ty[x] for x in (":", ";", "|", "tokId", "regDefId", "ignoredTokId", "prodId", "string_lit", "error", "empty", "char_lit", "-")]
 
 
 # ------------------------------------------------------------------------------------------------ generators
@@ -77,7 +77,7 @@ def sem_mutant(src, toks, rng):
     kind = rng.choice(["dup-tok", "dup-reg", "dup-ign", "undef-reg-in-tok", "undef-reg-in-reg", "undef-reg-unused", "rec-self", "rec-mutual-used",
                        "rec-mutual-unused", "undef-upper", "undef-lower", "undef-unicode-upper", "prod-INVALID", "prod-INVALID-first",
                        "lit-INVALID", "lit-EOF", "raw-INVALID", "dup-prod", "strlit-prod-before", "strlit-prod-after", "strlit-tok",
-                       "strlit-empty", "strlit-Sprime", "strlit-regdef", "use-INVALID", "regdef-as-tok-twice"])
+                       "strlit-empty", "strlit-Sprime", "strlit-regdef", "use-INVALID", "regdef-as-tok-twice", "empty-range"])
 
     def pick(hl, ty=None):
         c = [i for i in hl if ty is None or toks[i][0] == ty]
@@ -94,6 +94,17 @@ def sem_mutant(src, toks, rng):
         if rng.random() < 0.5:      # same id, different pattern
             body = toks[i][1] + b" : 'q' ;"
         return ins(src, at, b"\n" + body + b"\n"), kind
+    if kind == "empty-range":
+        i = pick(lexh)
+        if i is None:
+            return None
+        a, b, j = def_span(src, toks, i)
+        rngs = [k for k in range(i + 2, j - 1) if toks[k][0] == T_CHAR and toks[k + 1][0] == 10 and toks[k + 2][0] == T_CHAR]
+        if rngs and rng.random() < 0.5:      # swap the bounds of an existing range (no change when they are equal)
+            k = rng.choice(rngs)
+            lo, hi = toks[k], toks[k + 2]
+            return src[:lo[2]] + hi[1] + src[lo[2] + len(lo[1]):hi[2]] + lo[1] + src[hi[2] + len(hi[1]):], kind
+        return ins(src, toks[j][2], rng.choice([b" 'z'-'a' ", b" | 'b'-'\\x61' ", b" [ '\\u00e9'-'e' ] ", b" '9'-'0' "])), kind
     if kind == "regdef-as-tok-twice":      # two NEW definitions with one id
         if not lexh:
             return None
@@ -244,6 +255,8 @@ def classify(rc, out):
         return "timeout"
     if "Cannot have LR1 conflict with Accept" in out:
         return "accept-conflict"
+    if "empty character range" in out:
+        return "empty-range"
     if "Parse error:" in out and "expected one of" in out:
         return "parse"
     if "already exists" in out and "panic" in out:
